@@ -6,10 +6,157 @@ package msgpipeline
 // pipeline's statusCollector, on generated rewrite tables and status sequences.
 
 import (
+	"context"
 	"errors"
 	"fmt"
 	"testing"
+
+	"github.com/emersion/go-message/textproto"
+	"github.com/emersion/go-smtp"
+	"github.com/foxcpp/maddy/framework/buffer"
+	"github.com/foxcpp/maddy/framework/config"
+	"github.com/foxcpp/maddy/framework/log"
+	"github.com/foxcpp/maddy/framework/module"
+	"github.com/foxcpp/maddy/internal/modify"
+	"github.com/foxcpp/maddy/internal/testutils"
 )
+
+// a next hop that answers per recipient: one status for every address it was given, in the
+// order it was given them
+type v9Tgt struct{ fails map[string]bool }
+type v9Dlv struct {
+	t     *v9Tgt
+	rcpts []string
+}
+
+func (t *v9Tgt) Init(*config.Map) error { return nil }
+func (t *v9Tgt) Name() string           { return "verif_target" }
+func (t *v9Tgt) InstanceName() string   { return "verif_target" }
+func (t *v9Tgt) Start(ctx context.Context, _ *module.MsgMetadata, _ string) (module.Delivery, error) {
+	return &v9Dlv{t: t}, nil
+}
+func (d *v9Dlv) AddRcpt(ctx context.Context, to string, _ smtp.RcptOptions) error {
+	d.rcpts = append(d.rcpts, to)
+	return nil
+}
+func (d *v9Dlv) Body(context.Context, textproto.Header, buffer.Buffer) error { return nil }
+func (d *v9Dlv) BodyNonAtomic(ctx context.Context, c module.StatusCollector, _ textproto.Header, _ buffer.Buffer) {
+	for _, r := range d.rcpts {
+		if d.t.fails[r] {
+			c.SetStatus(r, errors.New("failed"))
+		} else {
+			c.SetStatus(r, nil)
+		}
+	}
+}
+func (d *v9Dlv) Abort(context.Context) error  { return nil }
+func (d *v9Dlv) Commit(context.Context) error { return nil }
+
+func v9Pipeline(rw map[string][]string, tgt module.DeliveryTarget) *MsgPipeline {
+	return &MsgPipeline{
+		msgpipelineCfg: msgpipelineCfg{
+			globalModifiers: modify.Group{Modifiers: []module.Modifier{testutils.Modifier{InstName: "verif_modifier", RcptTo: rw}}},
+			perSource:       map[string]sourceBlock{},
+			defaultSource: sourceBlock{
+				perRcpt:     map[string]*rcptBlock{},
+				defaultRcpt: &rcptBlock{targets: []module.DeliveryTarget{tgt}},
+			},
+		},
+		Log: log.Logger{Out: log.NopOutput{}},
+	}
+}
+
+// End-to-end stream: the real AddRcpt fills OriginalRcpts from 1-to-N rewrites (one pipeline,
+// or a pipeline nested in another, each with its own table) and the real BodyNonAtomic
+// translates the next hop's per-recipient results back.
+func TestVerif_C09PipeE2E(t *testing.T) {
+	out := vOpenOut()
+	defer out.Close()
+	n := vEnvInt("VERIF_N", 50)
+	addrs := []string{"alice@x.example", "bob@x.example", "carol@y.example", "list@x.example", "ü@x.example", "dave@y.example"}
+	stats := map[string]int{}
+	for ci := 0; ci < n; ci++ {
+		r := vNewRand(uint64(975000 + ci))
+		levels := 1
+		if r.chance(30) {
+			levels = 2
+		}
+		var tabs []map[string][]string
+		var tabTerms []string
+		for l := 0; l < levels; l++ {
+			tab := map[string][]string{}
+			var ents []string
+			for i := 0; i < r.intn(4); i++ {
+				k := addrs[r.intn(len(addrs))]
+				if _, dup := tab[k]; dup {
+					continue
+				}
+				var vs, vt []string
+				for j := 0; j < 1+r.intn(2); j++ {
+					v := addrs[r.intn(len(addrs))]
+					vs = append(vs, v)
+					vt = append(vt, cBytes([]byte(v)))
+				}
+				tab[k] = vs
+				ents = append(ents, fmt.Sprintf("(%s, %s)", cBytes([]byte(k)), cList(vt)))
+			}
+			tabs = append(tabs, tab)
+			tabTerms = append(tabTerms, cList(ents))
+		}
+		var rcpts []string
+		for i := 0; i < 1+r.intn(3); i++ {
+			rcpts = append(rcpts, addrs[r.intn(len(addrs))])
+		}
+		switch ci % 10 {
+		case 3: // a forwarding chain whose middle address the client also names
+			levels = 1
+			tabs = []map[string][]string{{"alice@x.example": {"bob@x.example"}, "bob@x.example": {"carol@y.example"}}}
+			tabTerms = []string{fmt.Sprintf("[(%s, [%s]); (%s, [%s])]", cBytes([]byte("alice@x.example")), cBytes([]byte("bob@x.example")),
+				cBytes([]byte("bob@x.example")), cBytes([]byte("carol@y.example")))}
+			rcpts = []string{"alice@x.example", "bob@x.example"}
+			if r.chance(50) {
+				rcpts = []string{"bob@x.example", "alice@x.example"}
+			}
+		}
+		fails := map[string]bool{}
+		var failTerms []string
+		for _, a := range addrs {
+			if r.chance(35) {
+				fails[a] = true
+				failTerms = append(failTerms, cBytes([]byte(a)))
+			}
+		}
+		var tgt module.DeliveryTarget = &v9Tgt{fails: fails}
+		for l := levels - 1; l >= 0; l-- {
+			tgt = v9Pipeline(tabs[l], tgt)
+		}
+		rec := &v9Rec{}
+		ctx := context.Background()
+		meta := &module.MsgMetadata{ID: fmt.Sprintf("v9e%d", ci), DontTraceSender: true, OriginalFrom: "sender@x.example"}
+		d, err := tgt.Start(ctx, meta, "sender@x.example")
+		if err != nil {
+			t.Fatal(err)
+		}
+		var rt []string
+		for _, a := range rcpts {
+			if err := d.AddRcpt(ctx, a, smtp.RcptOptions{}); err != nil {
+				t.Fatal(err)
+			}
+			rt = append(rt, cBytes([]byte(a)))
+		}
+		hdr := textproto.Header{}
+		hdr.Add("Subject", "x")
+		d.(module.PartialDelivery).BodyNonAtomic(ctx, rec, hdr, buffer.MemoryBuffer{Slice: []byte("body\r\n")})
+		if err := d.Commit(ctx); err != nil {
+			t.Fatal(err)
+		}
+		out.Case(fmt.Sprintf("CPipeE %s %s %s %s", cList(tabTerms), cList(rt), cList(failTerms), cList(rec.sts)))
+		stats[fmt.Sprintf("levels_%d", levels)]++
+	}
+	for k, v := range stats {
+		out.Stat(k, v)
+	}
+}
 
 type v9Rec struct{ sts []string }
 
